@@ -94,6 +94,8 @@ pub enum Case {
     Block(Vec<u8>),
     /// a block of this many pattern bytes (size boundaries without megabyte cases)
     BigBlock(u32),
+    /// a block longer than the 9-digit length field can express: the formatter must return an error
+    BigBlockRefused(u32),
     StrBlock(String),
     Chr(String),
     Expr(String),
@@ -310,7 +312,7 @@ fn check_block(payload: &[u8], as_str: bool, obs: &Obs, key: &Case) -> CheckResu
         Err(e) => fail!("format-error", "formatting a {}-byte block failed with {}", payload.len(), e.get_code()),
     };
     let l = payload.len();
-    let crossing = matches!(l, 9 | 10 | 99 | 100 | 999 | 1000 | 9999 | 10000 | 99999 | 100000 | 999_999 | 1_000_000 | 9_999_999 | 10_000_000);
+    let crossing = matches!(l, 9 | 10 | 99 | 100 | 999 | 1000 | 9999 | 10000 | 99999 | 100000 | 999_999 | 1_000_000 | 9_999_999 | 10_000_000 | 99_999_999 | 100_000_000 | 999_999_999);
     obs.label_if(crossing, "block length at a power-of-ten edge");
     obs.nontrivial_if(crossing || l >= 2, key);
     let dec = decode_block(&out);
@@ -485,6 +487,14 @@ pub fn check(case: &Case, obs: &Obs) -> CheckResult {
         Case::Str(s) => check_str(s, obs, case),
         Case::Block(p) => check_block(p, false, obs, case),
         Case::BigBlock(n) => check_block(crate::rec::big_block(*n), false, obs, case),
+        Case::BigBlockRefused(n) => {
+            obs.label("block beyond the 9-digit length field");
+            obs.nontrivial(case);
+            match fmt(&Arbitrary(crate::rec::zero_block(*n))) {
+                Err(_) => Ok(()),
+                Ok(out) => fail!("block-syntax", "a block of {n} bytes was formatted with header {:?}; its length cannot be expressed in the 9-digit field", txt(&out[..out.len().min(14)])),
+            }
+        }
         Case::StrBlock(s) => check_block(s.as_bytes(), true, obs, case),
         Case::Chr(s) => {
             obs.label("character data");
@@ -809,7 +819,16 @@ fn run(e: &Engine) {
     );
     if !cfg!(debug_assertions) {
         // the digit count of the block header changes at every power of ten
-        let edges: Vec<Case> = (0..=7u32).flat_map(|k| { let p = 10u32.pow(k); [p.saturating_sub(1), p, p + 1] }).map(Case::BigBlock).collect();
+        // (up to 10^8 in the default configuration; 10^9 - 1, the largest length the format can
+        // express, and 10^9, which must be refused, in the thorough tier)
+        let top = if crate::engine::ALT_CONFIG { 7u32 } else { 8 };
+        let mut edges: Vec<Case> = (0..=top).flat_map(|k| { let p = 10u32.pow(k); [p.saturating_sub(1), p, p + 1] }).map(Case::BigBlock).collect();
+        // a length the 9-digit field cannot express must be refused (zero pages, never read)
+        edges.push(Case::BigBlockRefused(1_000_000_000));
+        edges.push(Case::BigBlockRefused(4_000_000_000));
+        if e.tier == crate::engine::Tier::Thorough && !crate::engine::ALT_CONFIG {
+            edges.push(Case::BigBlock(999_999_999));
+        }
         e.fixed("block-length-at-every-power-of-ten", edges, check);
     }
     e.proptest("values-of-every-type", e.tier.pick(1_000_000, 30_000_000), case_strategy, check);
